@@ -15,6 +15,6 @@ META = dict(
          "an accepted header satisfied every rule (bits, work, parent held, not held, split rules, DAA bits, not marked, fork depth); already-known and too-deep "
          "answers; resubmission n times is the identity. For every state reached by submissions from genesis (invariant StreamWF): a header that passes every "
          "rule IS accepted - no internal error (parent lookup, work conversion, Longest(), branch update) can intervene (C08_passed_is_accepted) - and after "
-         "acceptance re-submitting it any number of times is answered already-known and changes nothing (C08_accepted_then_known). The correspondence compares verdict, tip, subscriber stream and full read-API dumps after every op.",
+         "acceptance re-submitting it any number of times is answered already-known and changes nothing (C08_accepted_then_known). The correspondence compares verdict, tip, subscriber stream and full read-API dumps after every op. In the linear world, also with most of the chain pruned from memory and at any generation, a submission is either refused without effect or accepted, announced once and appended as the new tip (C08_linear_step).",
     note=COMMON_NOTE + "The reference verdict for 'accepted' additionally depends on C02 (work/bits) and on the accepted tree being what the lookups say (C09).",
 )
